@@ -131,6 +131,42 @@ def bounded(tier, seed):
                                   'import aiocoap\nfrom aiocoap.message import UndecidedRemote\nm = aiocoap.Message(code=aiocoap.GET, uri_path=%r, uri_query=%r)\n'
                                   'm.remote = UndecidedRemote(%r, %r)\nu = m.get_request_uri()\nm2 = aiocoap.Message(code=aiocoap.GET)\nm2.set_request_uri(u)\n'
                                   'print(u, m2.opt.uri_path, m2.opt.uri_query)\nsys.exit(0 if (m2.opt.uri_path, m2.opt.uri_query) == (%r, %r) else 1)' % (path, query, scheme, hostinfo, path, query))
+    # RFC 7252 6.5 steps 3-5: the authority of the composed URI is Uri-Host (else the destination address) and Uri-Port (else the
+    # destination port); decomposing it again keeps the port with the destination
+    for scheme in ('coap', 'coaps'):
+        for hostinfo in ('192.0.2.1', '192.0.2.1:5700', '[2001:db8::1]:5700', 'proxy.example:61617'):
+            for uhost in (None, 'example.com'):
+                for uport in (None, 61616, 5683 if scheme == 'coap' else 5684):
+                    n += 1
+                    m = aiocoap.Message(code=aiocoap.GET, uri_path=('a',))
+                    if uhost is not None:
+                        m.opt.uri_host = uhost
+                    if uport is not None:
+                        m.opt.uri_port = uport
+                    m.remote = UndecidedRemote(scheme, hostinfo)
+                    dest_host, _, dest_port = hostinfo.rpartition(':') if hostinfo.count(':') == 1 or ']:' in hostinfo else (hostinfo, '', '')
+                    dest_host = dest_host or hostinfo
+                    want_host = uhost or dest_host
+                    want_port = uport if uport is not None else (int(dest_port) if dest_port else None)
+                    if want_port == (5683 if scheme == 'coap' else 5684):
+                        want_port = None
+                    want = '%s://%s%s/a' % (scheme, want_host, ':%d' % want_port if want_port else '')
+                    try:
+                        u = m.get_request_uri()
+                        m2 = decompose(u)
+                        back = (m2.opt.uri_path, m2.opt.uri_host, getattr(m2.remote, 'hostinfo', None))
+                    except Exception as e:
+                        u, back = repr(e), None
+                    want_back = (('a',), uhost or (None if dest_host[0].isdigit() or dest_host[0] == '[' else dest_host), want_host + (':%d' % want_port if want_port else ''))
+                    # an explicit default port is an equivalent spelling (6.5 step 5 would elide it): compared modulo that
+                    dflt = ':%d' % (5683 if scheme == 'coap' else 5684)
+                    norm = lambda t: t.replace(dflt + '/', '/') if isinstance(t, str) else t
+                    if back is not None and isinstance(back[2], str) and back[2].endswith(dflt):
+                        back = (back[0], back[1], back[2][:-len(dflt)])
+                    if norm(u) != want or back != want_back:
+                        violation(viol, 'opts-uri-opts', 'Uri-Host %r Uri-Port %r sent to %s://%s composes to %r (RFC 7252 6.5: %r), which decomposes to %r (expected %r)' % (uhost, uport, scheme, hostinfo, u, want, back, want_back),
+                                  'import aiocoap\nfrom aiocoap.message import UndecidedRemote\nm = aiocoap.Message(code=aiocoap.GET, uri_path=("a",))\n'
+                                  'm.opt.uri_host = %r\nm.opt.uri_port = %r\nm.remote = UndecidedRemote(%r, %r)\nu = m.get_request_uri()\nprint(u)\nsys.exit(0 if u == %r else 1)' % (uhost, uport, scheme, hostinfo, want))
     out.append({'name': 'C16/options-to-uri-to-options', 'tool': 'bounded enumeration (native)', 'bound': 'segments from an alphabet of %d, up to %d path and %d query options' % (len(SEGMENTS), kmax, 1 if tier != 'thorough' else kmax),
                 'inputs_tried': n, 'nontrivial': nt, 'samples': samples, 'violations': viol, 'counted_as_proved': False})
 
@@ -165,6 +201,18 @@ def bounded(tier, seed):
                                 got1 = got2 = repr(e)
                                 u2, port_kept = None, True
                             want = (path, query, want_host)
+                            if got1 == want and not escape_all:
+                                # 6.4 yields exactly the options of THIS URI also on a message that held the options of another one
+                                try:
+                                    m3 = decompose('coap://other.example/old/path?old=1&q')
+                                    m3.set_request_uri(u)
+                                    got3 = (m3.opt.uri_path, m3.opt.uri_query, m3.opt.uri_host)
+                                except Exception as e:
+                                    got3 = repr(e)
+                                if got3 != want:
+                                    violation(viol, 'uri-opts-uri', 'set_request_uri(%r) on a message that held another URI gives %r, on a fresh message %r' % (u, got3, want),
+                                              'import aiocoap\nm = aiocoap.Message(code=aiocoap.GET)\nm.set_request_uri("coap://other.example/old/path?old=1&q")\nm.set_request_uri(%r)\n'
+                                              'got = (m.opt.uri_path, m.opt.uri_query, m.opt.uri_host)\nprint(got)\nsys.exit(0 if got == %r else 1)' % (u, want))
                             if len(samples) < 4 and n % 211 == 0:
                                 samples.append({'uri': u, 'options': got1, 'recomposed': u2})
                             if got1 != want or got2 != want or not port_kept:
